@@ -19,7 +19,7 @@ def mc_writer(run, invariants, props=(), quick_depths=((2, 'FALSE'), (3, 'FALSE'
                % (d, ', every cut' if c == 'TRUE' else ''), timeout=3000)
 
 
-def writer_sequences(run, rng):
+def writer_sequences(run, rng, long_quick=False):
     """(ctor encoding, calls, origin) for C01/C02."""
     quick = run.tier == 'quick'
     out = []
@@ -35,6 +35,14 @@ def writer_sequences(run, rng):
     ws = wgen.walks(run, rng, 300 if quick else 8000, 12 if quick else 30, 2 if quick else 6)
     for b in ws:
         out.append((rng.choice(pools.CTOR_ENCODINGS), wgen.conc(b, rng), 'random-walk'))
+    # very long first lines (beyond 4 KiB / 8 KiB windows), line endings left to detection: a handful of sequences
+    # (TLC needs two minutes for an 8 KiB line - its sequences are immutable, Find/Indent recurse per byte: the
+    # 8 KiB sequences run in the thorough tiers only, C02's quick tier has the 4 KiB one)
+    longs = pools.LONG_TEXTS if not quick else (pools.LONG_TEXTS[1:2] if long_quick else [])     # quick: the 4 KiB one
+    for k, t in enumerate(longs):
+        out.append(('utf-8', [('preamble', {'text': t, 'indent': rng.choice([0, 4])}), ('change', {}), ('file', {}),
+                              ('meta', {'metadata': {'path': 'long'}}),
+                              ('diff', {'content': pools.LONG_DIFFS[k % len(pools.LONG_DIFFS)]})], 'long-first-line'))
     return out
 
 
